@@ -4,5 +4,5 @@ CONSTANTS
   OpsPerWorker = 2
   MaxHist = 0
 VIEW view
-INVARIANTS Linearizable TreeAgree LocksOK
+INVARIANTS Linearizable NoLost TreeAgree LocksOK
 CHECK_DEADLOCK TRUE
